@@ -243,7 +243,7 @@ fn block(b: &mut Builder, depth: u32, protected: &mut Vec<i64>) {
 
 fn stmt(b: &mut Builder, depth: u32, protected: &mut Vec<i64>) {
     let deep = depth >= 3;
-    let w: [u32; 20] = [
+    let w: [u32; 21] = [
         8,                          // 0 add const
         3,                          // 1 clear / set
         8,                          // 2 drain with multipliers
@@ -264,6 +264,7 @@ fn stmt(b: &mut Builder, depth: u32, protected: &mut Vec<i64>) {
         if deep { 0 } else { 2 },   // 17 loop on a cell that an inner if may have zeroed, with output inside
         4,                          // 18 strided loop on (copy of a cell + constant): symbolic 2-adic trip counts, results to 1-2 cells
         if depth >= 2 { 0 } else { 4 }, // 19 the same expression over two cells computed before and inside two sibling loops (value numbering across loops)
+        if depth >= 2 { 0 } else { 3 }, // 20 triangular sums: constant trip count n, lin += a, acc += k*lin (closed forms in n*(n-1)/2)
     ];
     let mut w = w;
     if b.focus == 1 {
@@ -314,7 +315,9 @@ fn stmt(b: &mut Builder, depth: u32, protected: &mut Vec<i64>) {
             let c = b.cell_not(protected);
             match b.rng.below(5) {
                 0 => {
-                    let v = b.rng.range(1, 5);
+                    // mostly a handful of iterations; sometimes enough for closed forms in n*(n-1)
+                    // to carry into the top bit of an 8-bit cell (n = 17 .. 40)
+                    let v = if b.rng.chance(1, 3) { b.rng.range(6, 40) } else { b.rng.range(1, 5) };
                     b.set(c, v);
                 }
                 4 if b.wrap_ok => {
@@ -410,6 +413,42 @@ fn stmt(b: &mut Builder, depth: u32, protected: &mut Vec<i64>) {
             let d = b.cell_not(&not);
             let k = b.mult_const();
             b.drain(c, &[(d, k)], step);
+        }
+        20 => {
+            let cnt = b.cell_not(protected);
+            let mut not = protected.clone();
+            not.push(cnt);
+            let lin = b.cell_not(&not);
+            not.push(lin);
+            let acc = b.cell_not(&not);
+            not.push(acc);
+            let tmp = b.cell_not(&not);
+            if [cnt, lin, acc, tmp].iter().collect::<std::collections::BTreeSet<_>>().len() == 4 {
+                // trip counts on both sides of the points where n*(n-1) carries into the top bit
+                let n = if b.wrap_ok && b.rng.chance(1, 4) { -b.rng.range(1, 127) } else { b.rng.range(2, 48) };
+                b.clear(cnt);
+                b.add(cnt, n);
+                if b.rng.chance(1, 2) {
+                    b.clear(lin);
+                }
+                b.clear(tmp);
+                b.goto(cnt);
+                b.out.push('[');
+                let a = *b.rng.pick(&[1i64, 1, 1, 2, 3, 5]);
+                let k = *b.rng.pick(&[1i64, 1, 1, 2, 3]);
+                let first = b.rng.chance(1, 2);
+                if first {
+                    b.add(lin, a);
+                }
+                b.add_mul(acc, lin, k, tmp);
+                if !first {
+                    b.add(lin, a);
+                }
+                b.add(cnt, -1);
+                b.goto(cnt);
+                b.out.push(']');
+                b.output(acc);
+            }
         }
         12 => {
             let c = b.cell();
